@@ -2,4 +2,8 @@
 
 package kapacitor
 
+import "github.com/influxdata/kapacitor/edge"
+
 func verifHook(string, ...string) {}
+
+func verifEdgeCreated(edge.StatsEdge, string, string, string) {}
